@@ -133,6 +133,12 @@ pub fn check_cut(bytes: &[u8], lay: &[Lay], c: usize, exp: &Expect, obs: &Obs) -
 /// master inside it is a Full as well); a buffered master whose End is not among the expected items is incomplete and
 /// nothing of it is emitted (it is the last thing before the end-of-file error).
 pub fn rollup_expect(items: &[(NItem, usize)], set: &[u64]) -> Vec<(NItem, usize)> {
+    rollup_expect_ex(items, set, false)
+}
+
+/// `flat_tail`: the alternative reading in which an incomplete buffered master comes out flat (Start and the complete
+/// tags inside it) instead of not at all — the statements are silent on which, both are accepted.
+pub fn rollup_expect_ex(items: &[(NItem, usize)], set: &[u64], flat_tail: bool) -> Vec<(NItem, usize)> {
     fn matching_end(items: &[(NItem, usize)], i: usize) -> Option<usize> {
         let mut depth = 0usize;
         for (j, (it, _)) in items.iter().enumerate().skip(i) {
@@ -176,7 +182,12 @@ pub fn rollup_expect(items: &[(NItem, usize)], set: &[u64]) -> Vec<(NItem, usize
                     out.push((NItem::Full(*id, build(&items[i + 1..j])), items[i].1));
                     i = j + 1;
                 }
-                None => return out,
+                None => {
+                    if flat_tail {
+                        out.extend(items[i..].iter().cloned());
+                    }
+                    return out;
+                }
             },
             _ => {
                 out.push(items[i].clone());
@@ -213,7 +224,7 @@ pub fn run(ctx: &mut Ctx) {
         extras: true,
         all_widths: false,
     };
-    ctx.meta("rule", "cases: (document, cut position c, capacity, read schedule); documents = every forest over V up to the node bound and the hand-written deep spines, every known/unknown-size choice of masters, one encoding/payload deviation; every c in 0..=len; capacities {default,16,17,64}; schedules with <= 1 short read (1,2,3,7 bytes at read k) and with every read 1 resp. 2 bytes; every (document, cut) also with each master id present, and all of them, buffered (whole reads and 1-byte reads): a complete buffered master is one Full item, nothing of an incomplete one is emitted, everything before it is, and the error is the same. Oracle: RefEncoder layout -> items completely inside the prefix, then Ends+None on a tag boundary, else UnexpectedEOF with tag_start/id/size/partial_data exactly as the statement prescribes (partial_data None accepted for zero available bytes). Non-trivial: cuts strictly inside a tag.");
+    ctx.meta("rule", "cases: (document, cut position c, capacity, read schedule); documents = every forest over V up to the node bound and the hand-written deep spines, every known/unknown-size choice of masters, one encoding/payload deviation; every c in 0..=len; capacities {default,16,17,64}; schedules with <= 1 short read (1,2,3,7 bytes at read k) and with every read 1 resp. 2 bytes; every (document, cut) also with each master id present, and all of them, buffered (whole reads and 1-byte reads): a complete buffered master is one Full item, nothing of an incomplete one is emitted (or, also accepted, its Start and complete tags come out flat), everything before it is, and the error is the same. Oracle: RefEncoder layout -> items completely inside the prefix, then Ends+None on a tag boundary, else UnexpectedEOF with tag_start/id/size/partial_data exactly as the statement prescribes (partial_data None accepted for zero available bytes). Non-trivial: cuts strictly inside a tag.");
     ctx.meta("bounds", &format!("documents <= {} elements (+ spines to depth 5 with 8-byte ids), <=1 deviation, all cuts, 4 capacities, <=1 read deviation", p.max_nodes));
     ctx.meta("assumptions", "payload contents are data-independent beyond the representative classes");
     for c in ["cut_inside_id", "cut_inside_size", "cut_inside_payload", "cut_on_boundary_with_open_masters", "unknown_size_docs", "cuts_with_buffered_masters", "cut_inside_buffered_master_that_follows_another_master"] {
@@ -281,7 +292,10 @@ pub fn run(ctx: &mut Ctx) {
                                 }
                             }
                             if let Err((k, det)) = check_cut(&bytes, &lay, c, &bexp, &obs) {
-                                ctx.violation(&format!("buffered/{}", k), &d, &format!("{} | observed {}", det, obs.short()));
+                                let alt = Expect { items: rollup_expect_ex(&exp.items, set, true), incomplete: exp.incomplete };
+                                if check_cut(&bytes, &lay, c, &alt, &obs).is_err() {
+                                    ctx.violation(&format!("buffered/{}", k), &d, &format!("{} | observed {}", det, obs.short()));
+                                }
                             }
                             ctx.validated += 1;
                             ctx.leave();
